@@ -85,6 +85,11 @@ static Result execute(const Toks &t) {
 static void generate(Rng &rng, const Opts &o, std::vector<std::string> &lines) {
     build_registry();
     vp::gen_struct_ops(rng, o.thorough(), lines);
+    vp::gen_nested_ops(rng, o.thorough(), {
+        "mpi::make_solver precond=mpi::amg repart=mpi::partition::merge min_per_proc",
+        "mpi::make_solver precond=mpi::amg coarsening=mpi::coarsening::smoothed_aggregation aggr=mpi::coarsening::pmis eps_strong",
+        "mpi::cpr pprecond=mpi::amg npost",
+        "mpi::schur_pressure_correction usolver=mpi::make_solver precond=mpi::amg max_levels"}, lines);
     vp::gen_enum_text_ops(rng, o.thorough(), lines);
     vp::gen_malformed(lines);
 }
